@@ -551,6 +551,15 @@ fn main() {
                 rep.violations.extend(st.violations);
                 rep.add_part(st.part);
             }
+            {
+                // one side drops while the other keeps writing into it
+                let mut d = vx_core::DfsConfig::new("dropped-while-the-peer-keeps-writing", 0);
+                d.wall = wall;
+                let thorough = tier == Tier::Thorough;
+                let st = vx_core::explore_dfs(&d, move |ch| fixedlat::orphan_scenario(ch, thorough));
+                rep.violations.extend(st.violations);
+                rep.add_part(st.part);
+            }
             all_feats.sort();
             all_feats.dedup();
             let need = ["SynSent", "SynReceived", "Established", "FinWait1", "FinWait2", "CloseWait", "LastAck", "Closing"];
@@ -686,6 +695,19 @@ fn replay(path: &str) {
                 for a in &v.actions {
                     println!("  {a}");
                 }
+                println!("VIOLATION clause={} : {}", v.clause, v.detail);
+                std::process::exit(1);
+            }
+            None => println!("no violation on this execution"),
+        }
+        return;
+    }
+    if prop == "C13" && scenario.starts_with("c13-orphan") {
+        println!("replaying {prop}: {scenario}");
+        let mut ch = vx_core::Chooser::from_choices(&choices);
+        let e = fixedlat::orphan_scenario(&mut ch, false);
+        match e.violation {
+            Some(v) => {
                 println!("VIOLATION clause={} : {}", v.clause, v.detail);
                 std::process::exit(1);
             }
